@@ -6,49 +6,189 @@ Import ListNotations.
 Open Scope N_scope.
 Ltac Zify.zify_post_hook ::= Z.div_mod_to_equations.
 
-(* the part of `documented` for which the round trip is proved: everything but interface-typed fields,
-   elements and roots (their round trip is checked on the implementation only) *)
-Fixpoint covered (t : gtype) : bool :=
-  match t with
-  | YIface => false
-  | YSlice e | YArray _ e | YMap e | YPtr e => covered e
-  | YStruct fs => forallb (fun f => covered (snd f)) fs
-  | _ => true
-  end.
+Section AvalInd.
+  Variable P : aval -> Prop.
+  Hypothesis HLeaf : forall a, (match a with AList _ | AMap _ => False | _ => True end) -> P a.
+  Hypothesis HList : forall l, Forall P l -> P (AList l).
+  Hypothesis HMap : forall m, Forall (fun kv => P (snd kv)) m -> P (AMap m).
+  Fixpoint aval_ind' (a : aval) : P a :=
+    match a with
+    | AList l => HList l ((fix go (l : list aval) : Forall P l :=
+                             match l with [] => Forall_nil P | x :: r => Forall_cons x (aval_ind' x) (go r) end) l)
+    | AMap m => HMap m ((fix go (m : list (list N * aval)) : Forall (fun kv => P (snd kv)) m :=
+                           match m with [] => Forall_nil _ | kv :: r => Forall_cons kv (aval_ind' (snd kv)) (go r) end) m)
+    | AByte v => HLeaf (AByte v) I | AShort v => HLeaf (AShort v) I | AInt v => HLeaf (AInt v) I
+    | ALong v => HLeaf (ALong v) I | AFloat b => HLeaf (AFloat b) I | ADouble b => HLeaf (ADouble b) I
+    | ABytes l => HLeaf (ABytes l) I | AString s => HLeaf (AString s) I
+    | AInts l => HLeaf (AInts l) I | ALongs l => HLeaf (ALongs l) I
+    end.
+End AvalInd.
+
+(* ---------- interfaces: the decoder gives back the dynamic value that was written ---------- *)
+Lemma av_list_cons f tg et y r acc :
+  av_list f tg et (y :: r) acc = if tg y =? et then tbind (f y) (fun t => av_list f tg et r (t :: acc)) else TErr.
+Proof. reflexivity. Qed.
+Lemma av_map_cons f kv r acc :
+  av_map f (kv :: r) acc = if name_too_long (fst kv) then TErr
+                            else tbind (f (snd kv)) (fun t => av_map f r ((fst kv, t) :: acc)).
+Proof. reflexivity. Qed.
+
+Lemma av_list_spec f tg et : forall l acc tr, av_list f tg et l acc = TOk tr ->
+  exists ts, tr = TList et (rev acc ++ ts) /\ Forall2 (fun y t => tg y = et /\ f y = TOk t) l ts.
+Proof.
+  induction l as [|y r IH]; intros acc tr H.
+  - cbn in H. injection H as <-. exists []. split; [now rewrite rev_append_rev|constructor].
+  - rewrite av_list_cons in H. destruct (N.eqb_spec (tg y) et) as [E|]; [|discriminate].
+    destruct (f y) as [t| |] eqn:Ef; cbn [tbind] in H; try discriminate.
+    destruct (IH _ _ H) as (ts & -> & F). exists (t :: ts). split.
+    + cbn [rev]. now rewrite <- app_assoc.
+    + constructor; auto.
+Qed.
+Lemma av_map_spec f : forall m acc tr, av_map f m acc = TOk tr ->
+  exists es, tr = TCompound (rev acc ++ es) /\
+    Forall2 (fun kv e => fst e = fst kv /\ name_too_long (fst kv) = false /\ f (snd kv) = TOk (snd e)) m es.
+Proof.
+  induction m as [|kv r IH]; intros acc tr H.
+  - cbn in H. injection H as <-. exists []. split; [now rewrite rev_append_rev|constructor].
+  - rewrite av_map_cons in H. destruct (name_too_long (fst kv)) eqn:En; [discriminate|].
+    destruct (f (snd kv)) as [t| |] eqn:Ef; cbn [tbind] in H; try discriminate.
+    destruct (IH _ _ H) as (es & -> & F). exists ((fst kv, t) :: es). split.
+    + cbn [rev]. now rewrite <- app_assoc.
+    + constructor; auto.
+Qed.
+
+Lemma any_bytes_spec : forall l acc tr, any_bytes l acc = TOk tr ->
+  exists bs, tr = TByteArray (rev acc ++ bs).
+Proof.
+  induction l as [|y r IH]; intros acc tr H; cbn [any_bytes] in H.
+  - injection H as <-. exists []. now rewrite rev_append_rev.
+  - destruct y; try discriminate. destruct (IH _ _ H) as (bs & ->). exists (u8 v :: bs). cbn [rev]. now rewrite <- app_assoc.
+Qed.
+
+(* a map built entry by entry from an association list without repeated keys is that list *)
+Lemma fold_map_set_nodup {V} : forall (l : list (list N * V)) acc, keys_nodup l = true ->
+  (forall k, assoc k acc <> None -> assoc k l = None) ->
+  fold_left (fun m kv => map_set (fst kv) (snd kv) m) l acc = acc ++ l.
+Proof.
+  induction l as [|[k x] l IH]; intros acc Hnd Hdis; cbn [fold_left fst snd]; [now rewrite app_nil_r|].
+  cbn [keys_nodup] in Hnd. destruct (assoc k l) eqn:Ek; [discriminate|].
+  assert (Ea : assoc k acc = None).
+  { destruct (assoc k acc) eqn:E; [|reflexivity]. exfalso.
+    assert (assoc k ((k, x) :: l) = None) as C by (apply Hdis; congruence).
+    cbn [assoc] in C. rewrite beqb_refl in C. discriminate. }
+  rewrite map_set_fresh by exact Ea. rewrite IH; auto.
+  - now rewrite <- app_assoc.
+  - intros k' Hk'. rewrite assoc_app in Hk'. destruct (assoc k' acc) eqn:E.
+    + assert (assoc k' ((k, x) :: l) = None) as C by (apply Hdis; congruence).
+      cbn [assoc] in C. destruct (bytes_eqb k' k); [discriminate|exact C].
+    + cbn [assoc] in Hk'. destruct (bytes_eqb k' k) eqn:Eb; [|congruence].
+      apply beqb_spec in Eb. subst k'. exact Ek.
+Qed.
+Lemma map_of_list_nodup {V} (l : list (list N * V)) : keys_nodup l = true -> map_of_list l = l.
+Proof.
+  intros H. unfold map_of_list. rewrite fold_map_set_nodup; auto. intros k Hk. cbn in Hk. congruence.
+Qed.
+
+Theorem any_rt : forall a tr, any_ok a = true -> any_tree a = TOk tr ->
+  wfb tr = true /\ tag_id tr = any_tag a /\ value_of tr = a.
+Proof.
+  induction a as [a Hl|l Hall|m Hall] using aval_ind'; intros tr Hok He.
+  - destruct a; try contradiction; cbn [any_tree any_ok] in *;
+      try (injection He as <-; repeat split; exact Hok).
+    unfold str_tree in He. destruct (N.ltb_spec 32767 (lenN s)); [discriminate|]. injection He as <-.
+    repeat split. cbn [wfb]. unfold name_ok. rewrite Hok. cbn [andb]. apply N.ltb_lt. change (2 ^ 15) with 32768. lia.
+  - cbn [any_ok] in Hok. rewrite !andb_true_iff in Hok. destruct Hok as [[Hlen Hfirst] Hoks].
+    apply N.ltb_lt in Hlen. cbn [any_tree] in He. destruct l as [|x l'].
+    { injection He as <-. repeat split. }
+    cbv zeta in He. apply N.eqb_eq in Hfirst.
+    destruct (arr_of_cases (any_tag x)) as [[_ C]|[[_ C]|[[_ C]|(N1 & N2 & N3 & _)]]];
+      try (rewrite C in Hfirst; vm_compute in Hfirst; discriminate).
+    destruct (N.eqb_spec (any_tag x) idByte); [contradiction|].
+    destruct (N.eqb_spec (any_tag x) idInt); [contradiction|].
+    destruct (N.eqb_spec (any_tag x) idLong); [contradiction|].
+    destruct (av_list_spec _ _ _ _ _ _ He) as (ts & -> & F). cbn [rev app].
+    set (l := x :: l') in *.
+    assert (G : forallb (fun t => (tag_id t =? any_tag x) && wfb t) ts = true /\ map value_of ts = l /\ length ts = length l).
+    { clear He Hlen. rewrite forallb_forall in Hoks. revert Hoks. clearbody l.
+      induction F as [|y t r ts' [Ey Hy] Fr IHr]; intros Hoks; [repeat split|].
+      inversion Hall as [|? ? Py Pr]; subst.
+      destruct (Py t (Hoks y (or_introl eq_refl)) Hy) as (W & T & V).
+      destruct (IHr Pr (fun z Hz => Hoks z (or_intror Hz))) as (I1 & I2 & I3).
+      cbn [forallb map length]. rewrite T, Ey, N.eqb_refl, W, I1, V, I2, I3. repeat split. }
+    destruct G as (G1 & G2 & G3). repeat split.
+    + cbn [wfb]. rewrite G1. unfold lenN in *. rewrite G3. rewrite !andb_true_iff. repeat split.
+      * apply N.leb_le. subst l. inversion F as [|? t0 ? ? [_ Hx0] ?]; subst.
+        inversion Hall as [|? ? Px _]; subst. cbn [forallb] in Hoks. apply andb_true_iff in Hoks.
+        destruct (Px t0 (proj1 Hoks) Hx0) as (_ & T & _). rewrite <- T. apply tag_id_range.
+      * destruct ts as [|t0 ts']; [reflexivity|]. apply N.leb_le. cbn [forallb] in G1.
+        rewrite !andb_true_iff in G1. destruct G1 as [[T _] _]. apply N.eqb_eq in T. rewrite <- T. apply tag_id_range.
+      * now apply N.ltb_lt.
+    + subst l. cbn [tag_id any_tag]. now rewrite Hfirst.
+    + cbn [value_of]. now rewrite G2.
+  - cbn [any_ok] in Hok. apply andb_true_iff in Hok. destruct Hok as [Hnd Hoks].
+    cbn [any_tree] in He. destruct (av_map_spec _ _ _ _ He) as (es & -> & F). cbn [rev app].
+    assert (G : forallb (fun kv => name_ok (fst kv) && wfb (snd kv)) es = true /\
+                map (fun kv => (fst kv, value_of (snd kv))) es = m).
+    { clear He Hnd. rewrite forallb_forall in Hoks. revert Hoks.
+      induction F as [|kv e r es' (E1 & E2 & E3) Fr IHr]; intros Hoks; [repeat split|].
+      inversion Hall as [|? ? Py Pr]; subst.
+      pose proof (Hoks kv (or_introl eq_refl)) as Hk. apply andb_true_iff in Hk. destruct Hk as [Hk1 Hk2].
+      destruct (Py (snd e) Hk2 E3) as (W & T & V).
+      destruct (IHr Pr (fun z Hz => Hoks z (or_intror Hz))) as (I1 & I2).
+      cbn [forallb map]. rewrite W, I1, I2, V, E1. rewrite (name_ok_of (fst kv) Hk1 E2).
+      split; [reflexivity|]. now destruct kv. }
+    destruct G as (G1 & G2). repeat split; auto.
+    cbn [value_of]. rewrite G2. now rewrite map_of_list_nodup.
+Qed.
+
+Lemma rt_iface : rt_ok YIface.
+Proof.
+  intros v tr Ht He. destruct v as [| | | | | | | | |o| |]; try discriminate. destruct o as [a|]; [|discriminate].
+  cbn [has_type enc] in *. destruct (any_rt a tr Ht He) as (W & T & V).
+  rewrite unm_nonptr by reflexivity. rewrite unm_base_iface, V. repeat split; auto.
+Qed.
 
 Lemma documented_struct fs : documented (YStruct fs) = true ->
-  names_ok fs = true /\ (forall f, In f fs -> f_list (fst f) = false /\ documented (snd f) = true).
+  names_ok fs = true /\ (forall f, In f fs -> documented (snd f) = true).
 Proof.
   cbn [documented]. rewrite andb_true_iff. intros [H1 H2]. split; [exact H1|]. clear H1.
   induction fs as [|g r IH]; intros f Hin; [destruct Hin|].
-  rewrite !andb_true_iff in H2. destruct H2 as [[Ha Hb] Hc]. destruct Hin as [->|Hin].
-  - split; [now apply negb_true_iff|exact Hb].
-  - now apply IH.
+  rewrite !andb_true_iff in H2. destruct H2 as [Hb Hc]. destruct Hin as [->|Hin]; auto.
 Qed.
 
-Theorem rt_all : forall t, documented t = true -> covered t = true -> rt_ok t.
+Lemma rtl_iface : rtl_ok YIface.
+Proof. intros v tr Ht He. destruct v; discriminate. Qed.
+
+Theorem rt_both : forall t, documented t = true -> rt_ok t /\ rtl_ok t.
 Proof.
-  induction t as [|sg w| | | |e IH|n e IH|e IH|fs IH|e IH| | |] using gtype_ind'; intros Hd Hc;
-    try discriminate.
+  induction t as [|sg w| | | |e IH|n e IH|e IH|fs IH|e IH| | |] using gtype_ind'; intros Hd;
+    try (split; [|apply rtl_none; exact I]).
   - apply rt_bool.
   - now apply rt_int.
   - apply rt_f32.
   - apply rt_f64.
   - apply rt_str.
-  - apply rt_slice; auto.
-  - cbn [documented] in Hd. apply andb_true_iff in Hd. destruct Hd as [_ Hd]. apply rt_array; auto.
-  - apply rt_map; auto.
-  - destruct (documented_struct fs Hd) as [Hn Hf]. cbn [covered] in Hc. rewrite forallb_forall in Hc.
-    apply rt_struct; auto.
-    + rewrite Forall_forall in *. intros f Hin. apply IH; auto. now apply Hf.
-    + intros f Hin. now apply Hf.
-  - apply rt_ptr; auto.
+  - destruct (IH Hd) as [I1 I2]. split; [apply rt_slice; auto|apply rtl_slice; auto].
+  - cbn [documented] in Hd. apply andb_true_iff in Hd. destruct Hd as [_ Hd].
+    destruct (IH Hd) as [I1 I2]. split; [apply rt_array; auto|apply rtl_array; auto].
+  - apply rt_map. now apply IH.
+  - destruct (documented_struct fs Hd) as [Hn Hf].
+    apply rt_struct; auto. rewrite Forall_forall in *. intros f Hin.
+    destruct (IH f Hin (Hf f Hin)) as [I1 I2].
+    intros x tr Ht He. unfold field_typed, field_enc in *. destruct (f_list (fst f)).
+    + exact (I2 x tr Ht He).
+    + destruct (I1 x tr Ht He) as (W & _ & U). auto.
+  - destruct (IH Hd) as [I1 I2]. split; [apply rt_ptr; auto|apply rtl_ptr; auto].
+  - split; [apply rt_iface|apply rtl_iface].
   - apply rt_raw.
   - apply rt_dyn.
 Qed.
+Theorem rt_all : forall t, documented t = true -> rt_ok t.
+Proof. intros t Hd. now apply rt_both. Qed.
 
 (* ---------- the encoder never panics on typed values ---------- *)
 Definition np_ok (t : gtype) : Prop := forall v, has_type t v = true -> enc t v <> TPanic.
+Definition npl_ok (t : gtype) : Prop := forall v, has_type_l t v = true -> enc_l t v <> TPanic.
 
 Lemma tmap_no_panic {A} (f : A -> tres) l : (forall x, In x l -> f x <> TPanic) -> tmap f l <> None.
 Proof.
@@ -73,33 +213,31 @@ Proof.
   destruct (tmap _ l) as [[|]|]; congruence.
 Qed.
 
-Lemma fields_no_panic fs : Forall (fun f => np_ok (snd f)) fs -> forall vs acc,
-  fields_typed (fun t x => has_type t x) fs vs = true -> fields_enc (fun t x => enc t x) fs vs acc <> TPanic.
+Lemma npl_seq t e l : (t = YSlice e \/ exists n, t = YArray n e) -> np_ok e ->
+  forallb (has_type e) l = true -> enc_l t (GvList l) <> TPanic.
 Proof.
-  induction 1 as [|f fr Hf Hfr IH]; intros [|x vr] acc Ht; try discriminate.
-  cbn in Ht. apply andb_true_iff in Ht. destruct Ht as [H1 H2]. rewrite fields_enc_cons.
-  repeat match goal with |- (if ?c then _ else _) <> _ => destruct c end; try discriminate; try (now apply IH);
-  (pose proof (Hf x H1); destruct (enc (snd f) x); cbn [tbind]; try congruence; try discriminate;
-   destruct (f_list (fst f)); [destruct (as_list _); [now apply IH|discriminate]|now apply IH]).
+  intros Ht IH Hall.
+  assert (E : enc_l t (GvList l) = enc_l (YSlice e) (GvList l)) by (destruct Ht as [->|[n ->]]; reflexivity).
+  rewrite E. cbn [enc_l].
+  assert (H : tmap (fun x => if get_tag e x =? match l with x0 :: _ => get_tag e x0 | [] => tag_by_ty e end
+                               then enc e x else TErr) l <> None).
+  { apply tmap_no_panic. intros x Hx. destruct (_ =? _); [|discriminate]. apply IH.
+    rewrite forallb_forall in Hall. auto. }
+  destruct (tmap _ l) as [[|]|]; congruence.
 Qed.
 
-Section AvalInd.
-  Variable P : aval -> Prop.
-  Hypothesis HLeaf : forall a, (match a with AList _ | AMap _ => False | _ => True end) -> P a.
-  Hypothesis HList : forall l, Forall P l -> P (AList l).
-  Hypothesis HMap : forall m, Forall (fun kv => P (snd kv)) m -> P (AMap m).
-  Fixpoint aval_ind' (a : aval) : P a :=
-    match a with
-    | AList l => HList l ((fix go (l : list aval) : Forall P l :=
-                             match l with [] => Forall_nil P | x :: r => Forall_cons x (aval_ind' x) (go r) end) l)
-    | AMap m => HMap m ((fix go (m : list (list N * aval)) : Forall (fun kv => P (snd kv)) m :=
-                           match m with [] => Forall_nil _ | kv :: r => Forall_cons kv (aval_ind' (snd kv)) (go r) end) m)
-    | AByte v => HLeaf (AByte v) I | AShort v => HLeaf (AShort v) I | AInt v => HLeaf (AInt v) I
-    | ALong v => HLeaf (ALong v) I | AFloat b => HLeaf (AFloat b) I | ADouble b => HLeaf (ADouble b) I
-    | ABytes l => HLeaf (ABytes l) I | AString s => HLeaf (AString s) I
-    | AInts l => HLeaf (AInts l) I | ALongs l => HLeaf (ALongs l) I
-    end.
-End AvalInd.
+Lemma fields_no_panic fs : Forall (fun f => np_ok (snd f) /\ npl_ok (snd f)) fs -> forall vs acc,
+  fields_typed (fun t x => has_type t x) (fun t x => has_type_l t x) fs vs = true ->
+  fields_enc (fun t x => enc t x) (fun t x => enc_l t x) fs vs acc <> TPanic.
+Proof.
+  induction 1 as [|f fr [Hf Hfl] Hfr IH]; intros [|x vr] acc Ht; try discriminate.
+  cbn in Ht. apply andb_true_iff in Ht. destruct Ht as [H1 H2]. rewrite fields_enc_cons.
+  repeat match goal with |- (if ?c then _ else _) <> _ => destruct c end; try discriminate; try (now apply IH).
+  destruct (f_list (fst f)).
+  - pose proof (Hfl x H1). destruct (enc_l (snd f) x); cbn [tbind]; try congruence; try discriminate. now apply IH.
+  - pose proof (Hf x H1). destruct (enc (snd f) x); cbn [tbind]; try congruence; try discriminate. now apply IH.
+Qed.
+
 
 Lemma any_bytes_np l : forall acc, any_bytes l acc <> TPanic.
 Proof. induction l as [|y r IH]; intros acc; cbn [any_bytes]; [discriminate|]. destruct y; try discriminate. apply IH. Qed.
@@ -107,14 +245,6 @@ Lemma any_ints_np l : forall acc, any_ints l acc <> TPanic.
 Proof. induction l as [|y r IH]; intros acc; cbn [any_ints]; [discriminate|]. destruct y; try discriminate. apply IH. Qed.
 Lemma any_longs_np l : forall acc, any_longs l acc <> TPanic.
 Proof. induction l as [|y r IH]; intros acc; cbn [any_longs]; [discriminate|]. destruct y; try discriminate. apply IH. Qed.
-Lemma av_list_cons f tg et y r acc :
-  av_list f tg et (y :: r) acc = if tg y =? et then tbind (f y) (fun t => av_list f tg et r (t :: acc)) else TErr.
-Proof. reflexivity. Qed.
-Lemma av_map_cons f kv r acc :
-  av_map f (kv :: r) acc = if name_too_long (fst kv) then TErr
-                            else tbind (f (snd kv)) (fun t => av_map f r ((fst kv, t) :: acc)).
-Proof. reflexivity. Qed.
-
 Lemma any_tree_no_panic : forall a, any_tree a <> TPanic.
 Proof.
   induction a as [a Hl|l Hall|m Hall] using aval_ind'.
@@ -134,14 +264,16 @@ Proof.
     destruct (any_tree (snd kv)); cbn [tbind]; try congruence; try apply IHr.
 Qed.
 
-Theorem np_all : forall t, np_ok t.
+Theorem np_both : forall t, np_ok t /\ npl_ok t.
 Proof.
-  induction t as [|sg w| | | |e IH|n e IH|e IH|fs IH|e IH| | |] using gtype_ind'; intros v Ht;
-    destruct v; try discriminate; cbn [has_type] in Ht.
+  induction t as [|sg w| | | |e IH|n e IH|e IH|fs IH|e IH| | |] using gtype_ind'; split; intros v Ht;
+    destruct v; try discriminate; try (cbn [has_type has_type_l] in Ht).
   - cbn [enc]. unfold int_tree. repeat destruct (_ =? _); discriminate.
   - cbn [enc]. unfold str_tree. destruct (_ <? _); discriminate.
-  - rewrite !andb_true_iff in Ht. apply (np_seq (YSlice e) e l); auto. apply Ht.
-  - rewrite !andb_true_iff in Ht. apply (np_seq (YArray n e) e l); eauto. apply Ht.
+  - rewrite !andb_true_iff in Ht. apply (np_seq (YSlice e) e l); auto; apply IH || apply Ht.
+  - rewrite !andb_true_iff in Ht. apply (npl_seq (YSlice e) e l); auto; apply IH || apply Ht.
+  - rewrite !andb_true_iff in Ht. apply (np_seq (YArray n e) e l); eauto; apply IH || apply Ht.
+  - rewrite !andb_true_iff in Ht. apply (npl_seq (YArray n e) e l); eauto; apply IH || apply Ht.
   - apply andb_true_iff in Ht. destruct Ht as [_ Ht]. cbn [enc].
     assert (H : tmap (fun kv : list N * gv => if get_tag e (snd kv) =? idEnd then TErr
                         else if name_too_long (fst kv) then TErr else enc e (snd kv)) m <> None).
@@ -151,10 +283,13 @@ Proof.
     destruct (tmap _ m) as [[|]|]; congruence.
   - cbn [enc]. now apply fields_no_panic.
   - cbn [enc]. destruct o as [x|]; apply IH; exact Ht.
+  - cbn [enc_l]. destruct o as [x|]; apply IH; exact Ht.
   - cbn [enc]. destruct o as [a|]; [apply any_tree_no_panic|discriminate].
   - cbn [enc]. destruct o; discriminate.
   - cbn [enc]. destruct o; discriminate.
 Qed.
+Theorem np_all : forall t, np_ok t.
+Proof. intros t. apply np_both. Qed.
 
 Theorem marshal_no_panic f byval name t v : has_type t v = true -> marshal f byval name t v <> MPanic.
 Proof.
